@@ -277,6 +277,13 @@ def query_violation(rec):
     a, _, b = parts[0].partition('/')
     a2, _, b2 = (parts[1] if len(parts) > 1 else parts[0]).partition('/')
     has_empty = len(parts) > 2 and parts[2] == 'e1'
+    shared = next((x[1:] for x in parts[3:] if x.startswith('s')), None)
+    if shared is not None and shared != a:
+        return ('query-shared-context', 'with the evaluation context the earlier queries of this history used the edited document selects ranks %s, with a fresh context %s' % (shared, a))
+    if a != '-' and a not in ('scalar', 'err', 'panic') and '?' not in a:
+        rk = [int(x) for x in a.split('.')]
+        if any(y <= x for x, y in zip(rk, rk[1:])):
+            return ('query-order', 'node-set on the edited document is not in document order / has duplicates: ranks %s (re-parse: %s)' % (a, b))
     if b == 'noparse':
         return None
     if a == b:
@@ -335,6 +342,7 @@ DOCS = [
     '<!DOCTYPE r [<!ENTITY e "v">]><r><a>&e;x&#65;</a><b i="1&#66;2" j="3"/></r>',
     '<r/>',
     '<r>t</r>',
+    '<r xmlns:p="u1"><a xmlns:p="u2"><w><p:x p:k="1"/>t</w></a><b><p:y/>s<z i="1" j="2"/></b><c xmlns="d"><e/></c></r>',
 ]
 SMALL = '<r><a x="1">t</a><b/></r>'
 
@@ -673,7 +681,10 @@ def cache_path(run, name):
 QUERIES = ['//node()', '//*', '//@*', '//text()', '/*/*[last()]', '/*/*[1]/following-sibling::node()', '//*/preceding-sibling::node()',
            '//*[@*]', '//comment()|//processing-instruction()', '/*/descendant-or-self::node()', '//*/..', '//*/@*/..',
            '//text()/ancestor::*', '/*/*[2]/preceding::*', '/*/*[1]/following::*', '//*[last()]', '/*//*[position()=1]',
-           '//*/*|//@*', '//node()[1]', '(//*)[last()]/ancestor-or-self::*']
+           '//*/*|//@*', '//node()[1]', '(//*)[last()]/ancestor-or-self::*',
+           # namespace-sensitive (no caller bindings needed): scopes must follow a moved subtree
+           '//*[namespace-uri()="u1"]', '//*[namespace-uri()="u2"]|//@*[namespace-uri()="u2"]', '//*[namespace-uri()=""]',
+           '//*[name()="p:x"]|//*[local-name()="e"]', '//@*|//text()|//comment()', '//*/@*|//*/node()']
 
 def source_hash():
     h = hashlib.sha256()
@@ -743,12 +754,18 @@ def analyse(cases, impl_lines, model_lines, summary, memo, tag):
                     found.add((prop, clause))
                     summary[prop].append({'docs': docs, 'ops': [list(o) for o in ops[:i]], 'view': view, 'clause': clause, 'detail': detail, 'tag': tag})
 
-def with_queries(ops, rng, every=5, batch=4):
+def with_queries(ops, rng, every=5, batch=4, dense=False):
+    """query batches between the edits.  `dense`: a warm-up batch before the first edit (so that anything
+    the library computes lazily or caches has been computed from the unedited document) and a batch
+    directly after an edit with probability 1/2 -- an edit followed at once by a query, with no other
+    call in between, is what exposes stale keys or caches"""
     out = []
+    if dense:
+        out += [('Q', 0, q) for q in rng.sample(QUERIES, batch)]
     for i, o in enumerate(ops):
         out.append(o)
-        if (i + 1) % every == 0:
-            out += [('Q', 0, q) for q in rng.sample(QUERIES, batch)]
+        if (dense and rng.random() < 0.5) or (not dense and (i + 1) % every == 0):
+            out += [('Q', 0, q) for q in rng.sample(QUERIES, 3 if dense else batch)]
     out += [('Q', 0, q) for q in rng.sample(QUERIES, batch)]
     return out
 
@@ -811,6 +828,7 @@ def campaign(run, log=lib.log):
     summary['times']['random'] = round(time.time() - t0, 1); t0 = time.time()
     # (d) the same histories with XPath query batches, implementation only, merged view, no dumps
     QH = [(d, with_queries(o, rng), 'm!9999') for d, o, v in H[:(len(H) if thorough else 300)]]
+    QH += [(d, with_queries(o[:12], rng, dense=True), 'm!9999') for d, o, v in H[:(len(H) if thorough else 400)]]
     lines = [mkcase(*c) for c in QH]
     il = run_impl(lines)
     analyse(QH, il, None, summary, memo, 'queries')
@@ -888,3 +906,24 @@ def replay_file(path, prop):
     print('implementation line:'); print(il[0][:2000])
     if ml: print('model line:'); print(ml[0][:2000])
     return 0
+
+
+NS_QUERIES = [q for q in QUERIES if 'namespace-uri' in q or 'name()' in q]
+
+def query_findings(run, clauses, only_queries=None):
+    """failures of the Q ops of the shared campaign with one of the given clauses (shrunk), for the
+    checks of other properties that are also about queries on edited documents (C07, C10, C19)"""
+    lib.build_binaries(run, model_areas=['dom'])
+    s = campaign(run)
+    out, seen = [], set()
+    for f in s['c14']:
+        if f['clause'] not in clauses or f['clause'] in seen:
+            continue
+        ops = f['ops']
+        q = ops[-1][2] if ops and ops[-1][0] == 'Q' else None
+        if only_queries is not None and q not in only_queries:
+            continue
+        seen.add(f['clause'])
+        g = shrink_failure(f, 'c14')
+        out.append(dict(g, what=describe_failure(g), query=q))
+    return out
